@@ -347,6 +347,29 @@ fn respell(text: &str, path: u8) -> Option<String> {
             }
             Some(format!("{}{}{}{}\n", prelude, mn, if new_ops.is_empty() { "" } else { " " }, new_ops.join(", ")))
         }
+        250 => {
+            // only for lines that must be refused: a block comment in the middle of the line, with what makes
+            // the line unencodable behind it (`63 /* max */ + 1`, `1 /* lo */, 2`). Whether a comment may
+            // stand there is not the point - the line is refused one way or the other, never assembled from
+            // what stands in front of the comment
+            let mut new_ops: Vec<String> = vec![];
+            let mut changed = false;
+            for o in ops.iter() {
+                if !changed && is_num(o) {
+                    let v: i128 = if *o == "(-9223372036854775807-1)" { i64::MIN as i128 } else { o.parse().ok()? };
+                    new_ops.push(if v >= 0 { format!("0 /* base */ + {}", v) } else { format!("0 /* base */ - {}", -v) });
+                    changed = true;
+                } else {
+                    new_ops.push(o.to_string());
+                }
+            }
+            if !changed {
+                // surplus operands, wrong registers: everything from the last operand on goes behind the comment
+                let last = new_ops.pop()?;
+                return Some(format!("{} {}{}/* rest */ {}\n", mn, new_ops.join(", "), if new_ops.is_empty() { "" } else { " " }, if new_ops.is_empty() { last } else { format!(", {}", last) }));
+            }
+            Some(format!("{} {}\n", mn, new_ops.join(", ")))
+        }
         p if p >= 3 => {
             // the same values written as computed expressions: what decides is the value, whichever operator
             // produced it (odd paths: the expression is also passed through a macro argument)
@@ -420,6 +443,9 @@ fn run_case(ctx: &Ctx, c: &Case) {
     if always || ctx.tier == Tier::Thorough || fw::hash_str(&c.text) % 4 == 0 {
         run_case_path(ctx, c, 1);
         run_case_path(ctx, c, 2);
+        if matches!(c.expect, Expect::Reject) {
+            run_case_path(ctx, c, 250);
+        }
         if ctx.tier == Tier::Thorough {
             for p in 3..3 + 2 * COMPUTED_SHAPES {
                 run_case_path(ctx, c, p);
@@ -443,6 +469,7 @@ fn run_case_path(ctx: &Ctx, c: &Case, path: u8) {
             Some(t) => (format!("{}{}", h, t), match p {
                 1 => "/via-alias-or-symbol",
                 2 => "/via-macro-argument",
+                250 => "/behind-a-block-comment",
                 p if (p - 3) % 2 == 0 => "/as-computed-expression",
                 _ => "/as-computed-expression-in-macro-argument",
             }),
@@ -450,7 +477,7 @@ fn run_case_path(ctx: &Ctx, c: &Case, path: u8) {
         },
     };
     if path != 0 {
-        ctx.count(match path { 1 => "lines_respelled_via_alias_or_symbol", 2 => "lines_respelled_via_macro_argument", _ => "lines_respelled_as_computed_expressions" }, 1);
+        ctx.count(match path { 1 => "lines_respelled_via_alias_or_symbol", 2 => "lines_respelled_via_macro_argument", 250 => "must_reject_lines_with_the_fault_behind_a_block_comment", _ => "lines_respelled_as_computed_expressions" }, 1);
     }
     let c = &Case { form: c.form, text: c.text.clone(), expect: c.expect.clone(), sig: format!("{}{}", c.sig, via) };
     let out = fw::build_str(&src);
@@ -611,7 +638,7 @@ pub fn run(ctx: &Ctx) -> i32 {
     ctx.exhaustive.store(true, std::sync::atomic::Ordering::Relaxed);
     fw::finish(
         ctx,
-        "per instruction form and legal anchor tuple, one operand at a time leaves its ISA domain: every register r0..r31 in each register position, every number in [lo-300, hi+300] plus ±2^k, ±2^k±1, ±i64::MAX and i64::MIN in each numeric position, operand-kind substitutions, 0..arity-1, arity+1 and arity+2..arity+257 operands, and for every two-operand form the complete cross product every register x every register / boundary value (thorough: two operands out at once, ±70000 windows on 16/22-bit fields); plus a device sweep: every device of the table x every form it has x each operand just outside, just inside and far outside (by 4095..2^32) its field; exhaustive for those windows; every register, cross-product and kind-confusion line (and a quarter of the numeric windows; thorough: all) once more with registers through `.def` aliases and numbers through `.equ` symbols, once more as the body of a macro with the operands as arguments, and with every number written as a computed expression of the same value (12 shapes: complement, sums, negations, parenthesised, right-grouped differences / quotients / shifts; quick: the complement and one other shape, one of them through a macro argument; thorough: all shapes both ways); distinct_nontrivial = distinct must-reject source lines",
+        "per instruction form and legal anchor tuple, one operand at a time leaves its ISA domain: every register r0..r31 in each register position, every number in [lo-300, hi+300] plus ±2^k, ±2^k±1, ±i64::MAX and i64::MIN in each numeric position, operand-kind substitutions, 0..arity-1, arity+1 and arity+2..arity+257 operands, and for every two-operand form the complete cross product every register x every register / boundary value (thorough: two operands out at once, ±70000 windows on 16/22-bit fields); plus a device sweep: every device of the table x every form it has x each operand just outside, just inside and far outside (by 4095..2^32) its field; exhaustive for those windows; every register, cross-product and kind-confusion line (and a quarter of the numeric windows; thorough: all) once more with registers through `.def` aliases and numbers through `.equ` symbols, once more as the body of a macro with the operands as arguments, and with every number written as a computed expression of the same value (12 shapes: complement, sums, negations, parenthesised, right-grouped differences / quotients / shifts; quick: the complement and one other shape, one of them through a macro argument; thorough: all shapes both ways); every must-reject line of that subset once more with what makes it unencodable behind a mid-line block comment (`0 /* base */ + 64`, `r1 /* rest */ , r2, r3`: refused one way or the other, never assembled from what stands in front of the comment); distinct_nontrivial = distinct must-reject source lines",
         &[
             "legality = refmodel/isa.rs operand domains (manual transcription)",
             "8-bit immediates written as -128..-1 are accepted as two's complement or rejected (statement silent); ld/st written with a displacement and ldd/std written with increment, decrement or X forms are must-reject (the ISA defines no such form for that mnemonic); `ldd Rd, Y` without displacement is not probed",
